@@ -190,8 +190,9 @@ def hProcess (rev : HRow) (d : Buckets HRow) (multi multiAll : Bool) (chunk : Na
   else if !multi && (d.added.length > 1 || d.removed.length > 1) then .error .assertion  -- 54-56
   else if !d.removed.isEmpty && d.added.isEmpty && multi && multiAll && d.unchanged.isEmpty then
     .ok [⟨false, rev ++ [.w "all"], none⟩]                                          -- 58-62
-  else if !d.removed.isEmpty && d.added.isEmpty && !(multi && multiAll) && !multi && !multiAll then
-    .ok [⟨false, rev, none⟩]                                                        -- 63-65
+  else if !d.removed.isEmpty && d.added.isEmpty && !(multi && multiAll) && !multi && !multiAll
+      && d.unchanged.isEmpty then                                                   -- 63 (since 7d0d905: `and not diff[Op.UNCHANGED]`)
+    .ok [⟨false, rev, none⟩]                                                        -- 64-65
   else do
     let (pa, new) ← hParseActions d.added                                           -- 67
     let (pd, old) ← hParseActions d.removed                                         -- 68
